@@ -112,6 +112,14 @@ def create_machine(
     # -------------------------------------------------------------------------
     # ☝️ Step 1: Determine the Source of Business Logic
     # -------------------------------------------------------------------------
+    # 🛡️ The config must be a mapping. Anything else used to surface as a raw
+    #    `AttributeError` from the first `.get()` below.
+    if not isinstance(config, dict):
+        raise InvalidConfigError(
+            "Machine configuration must be a dict with 'id' and 'states' "
+            f"keys, got {type(config).__name__}."
+        )
+
     final_logic: MachineLogic
     if logic:
         # ✅ Path 1: Use the explicitly provided logic instance.
